@@ -1978,11 +1978,14 @@ CLambdaRealDoubleVisitor *lambda_real_double_visitor_new()
     return new CLambdaRealDoubleVisitor();
 }
 
-void lambda_real_double_visitor_init(CLambdaRealDoubleVisitor *self,
-                                     const CVecBasic *args,
-                                     const CVecBasic *exprs, int perform_cse)
+CWRAPPER_OUTPUT_TYPE
+lambda_real_double_visitor_init(CLambdaRealDoubleVisitor *self,
+                                const CVecBasic *args, const CVecBasic *exprs,
+                                int perform_cse)
 {
+    CWRAPPER_BEGIN
     self->m.init(args->m, exprs->m, perform_cse);
+    CWRAPPER_END
 }
 
 void lambda_real_double_visitor_call(CLambdaRealDoubleVisitor *self,
